@@ -303,6 +303,28 @@ PROPS["C09"] = {
     ],
 }
 
+PROPS["C19"] = {
+    "level": "exploration",
+    "rule": "cases are histories (4-24 ops) on twin locations P (protected) and U (never protected): protection changes (set/remove "
+            "write key, set/remove read key, read-only on/off, disabled on/off) interleaved with operations from the Location API "
+            "(AddFact, RemFact, AddRule, RemRule, EnableRule, SetParents, Clear, GetFact, GetRule, SearchFacts, SearchRules, ListRules, "
+            "Query, StateSize, GetParents), RunJavascript calling Env.AddFact / Env.Search, and events whose actions call Env.AddFact, "
+            "Env.RemFact, Env.AddRule, Env.Search, each under a caller context from {no key, wrong keys, right keys, read key only, "
+            "write key only}; indexed or linear. Unauthorised call on P: must fail (an event may be processed as long as no action "
+            "succeeds), must return no data, storage snapshot unchanged. Authorised call: result and error status equal U's. "
+            "Non-trivial = a refused mutating call on a location holding data, or an action-issued write refused while the event "
+            "itself was readable. Distinct = distinct canonical JSON. Labels 'cell:<op>' count the operation x protection x context cells reached.",
+    "assumptions": COMMON_ASSUMPTIONS + [
+        "whether GetParents needs the read key is not specified (the statement names the parent set only for writes): only enablement is required of it",
+        "SetProp/RemProp are the privileged administration path by which the harness itself sets keys; they are not part of the claim",
+        "a Clear removes the keys and the enabled flag (they are facts of the location); the harness follows that",
+    ],
+    "parts": [
+        {"name": "access", "mode": "plain", "test": "TestC19",
+         "quick": {"checks": 2500, "shards": 4}, "thorough": {"checks": 25000, "shards": 16}},
+    ],
+}
+
 # Properties deliberately not claimed (reason shown in MANIFEST.not_applicable).
 NOT_APPLICABLE = {}
 
@@ -373,6 +395,11 @@ TEXT = {
         "technique": _PBT + "stateful generated multi-location histories vs per-location reference model with ancestor closure at observation time; full observation vector of every location after every step",
         "level_text": "Generated exploration of forests, DAGs and cyclic parent graphs; interference is any change of a location's vector that the model does not predict. Not a proof.",
         "level_note": "Trusted: reference model; 3-5 locations, <= 22 operations; loops die fast through a 64 MiB stack limit and the journaled child.",
+    },
+    "C19": {
+        "technique": _PBT + "generated histories on protected/unprotected twin locations (differential) with an authorisation oracle per operation x protection state x caller context; storage snapshot invariance for refused calls",
+        "level_text": "Generated exploration of the operation x protection x context matrix at arbitrary points of a history, including action-issued writes. Not a proof.",
+        "level_note": "Trusted: the authorisation table in props/c19_test.go (derived from the statement), twin comparison.",
     },
     "C05": {
         "technique": _PBT + "generated (pattern, data, bindings) vs independent brute-force matcher; substitution round-trip; metamorphic typed variants",
